@@ -42,77 +42,121 @@ def _format_of(node: ast.AST, argname: str) -> str:
     raise TranslateError("expected '<fmt>'.format(%s): %s" % (argname, ast.dump(node)[:160]))
 
 
+def _format_n(node: ast.AST, argnames: List[str]) -> str:
+    """'<fmt>'.format(a, b, ...) with exactly these Name arguments -> fmt"""
+    if (isinstance(node, ast.Call) and isinstance(node.func, ast.Attribute) and node.func.attr == "format"
+            and not node.keywords and [getattr(a, "id", None) for a in node.args] == argnames):
+        return _const_str(node.func.value)
+    raise TranslateError("expected '<fmt>'.format(%s): %s" % (", ".join(argnames), ast.dump(node)[:160]))
+
+
 def read_glue() -> Any:
+    """parse_req_with_marker(req_str, marker):
+         if ";" in req_str:
+             head, _, own_marker = req_str.partition(";")
+             return utils.parse_requirement("{}; ({}) and {}".format(head, own_marker, marker))
+         return utils.parse_requirement(req_str + "; {}".format(marker))
+    (the former unparenthesised  req_str + " and {}"  shape is rejected)"""
     f = T.func(T.parse("req_compile/metadata/source.py"), "parse_req_with_marker")
-    args = [a.arg for a in f.args.args]
-    if args != ["req_str", "marker"]:
-        raise TranslateError(f"parse_req_with_marker arguments {args}")
+    if [a.arg for a in f.args.args] != ["req_str", "marker"]:
+        raise TranslateError("parse_req_with_marker arguments changed")
     body = [n for n in f.body if not (isinstance(n, ast.Expr) and isinstance(n.value, ast.Constant))]
-    if len(body) != 1 or not isinstance(body[0], ast.Return):
-        raise TranslateError("parse_req_with_marker: expected a single return")
-    call = body[0].value
-    if not (isinstance(call, ast.Call) and isinstance(call.func, ast.Attribute) and call.func.attr == "parse_requirement"
-            and len(call.args) == 1 and isinstance(call.args[0], ast.IfExp)):
-        raise TranslateError("parse_req_with_marker: expected utils.parse_requirement(a if c else b)")
-    ife = call.args[0]
-    t = ife.test
+    if len(body) != 2 or not isinstance(body[0], ast.If) or body[0].orelse or not isinstance(body[1], ast.Return):
+        raise TranslateError("parse_req_with_marker: expected `if <c> in req_str: ...; return ...`")
+    t = body[0].test
     if not (isinstance(t, ast.Compare) and len(t.ops) == 1 and isinstance(t.ops[0], ast.In)
             and isinstance(t.comparators[0], ast.Name) and t.comparators[0].id == "req_str"):
         raise TranslateError("parse_req_with_marker: expected `<const> in req_str`")
     test = _const_str(t.left)
+    ib = body[0].body
+    if len(ib) != 2 or not isinstance(ib[0], ast.Assign) or not isinstance(ib[1], ast.Return):
+        raise TranslateError("parse_req_with_marker: unexpected body of the if")
+    tgt = ib[0].targets[0]
+    call = ib[0].value
+    if not (isinstance(tgt, ast.Tuple) and [getattr(e, "id", None) for e in tgt.elts] == ["head", "_", "own_marker"]
+            and isinstance(call, ast.Call) and _safe_chain(call.func) == "req_str.partition"
+            and len(call.args) == 1 and _const_str(call.args[0]) == test):
+        raise TranslateError("parse_req_with_marker: expected head, _, own_marker = req_str.partition(<same const>)")
 
-    def branch(b: ast.AST) -> str:
-        if not (isinstance(b, ast.BinOp) and isinstance(b.op, ast.Add) and isinstance(b.left, ast.Name) and b.left.id == "req_str"):
-            raise TranslateError("parse_req_with_marker: expected req_str + '<fmt>'.format(marker)")
-        fmt = _format_of(b.right, "marker")
-        if not fmt.endswith("{}") or "{" in fmt[:-2]:
-            raise TranslateError(f"unsupported format {fmt!r}")
-        return fmt[:-2]
-    return test, branch(ife.body), branch(ife.orelse)
+    def parsed(ret: ast.Return) -> ast.AST:
+        c = ret.value
+        if not (isinstance(c, ast.Call) and _safe_chain(c.func) == "utils.parse_requirement" and len(c.args) == 1):
+            raise TranslateError("parse_req_with_marker: expected return utils.parse_requirement(<text>)")
+        return c.args[0]
+    fmt3 = _format_n(parsed(ib[1]), ["head", "own_marker", "marker"])
+    pieces = fmt3.split("{}")
+    if len(pieces) != 4 or pieces[0] != "" or pieces[3] != "":
+        raise TranslateError(f"unsupported format {fmt3!r}")
+    b = parsed(body[1])
+    if not (isinstance(b, ast.BinOp) and isinstance(b.op, ast.Add) and isinstance(b.left, ast.Name) and b.left.id == "req_str"):
+        raise TranslateError("parse_req_with_marker: expected req_str + '<fmt>'.format(marker)")
+    fmt1 = _format_of(b.right, "marker")
+    if not fmt1.endswith("{}") or "{" in fmt1[:-2]:
+        raise TranslateError(f"unsupported format {fmt1!r}")
+    if len(test) != 1:
+        raise TranslateError("single character expected")
+    return test, pieces[1], pieces[2], fmt1[:-2]
 
 
 def read_setup() -> Any:
+    """setup(): name.replace, setup_frameworks, and how an extras_require key becomes marker texts:
+         extra_name, _, env_marker = extra.partition(":") ; extra_name = extra_name.strip()
+         if env_marker.strip(): markers.append("({})".format(env_marker))
+         if extra_name: markers.append('extra=="{}"'.format(extra_name.replace('"', '\\"')))
+         parse_req_with_marker(str(cur_req), " and ".join(markers)) if markers else cur_req"""
     f = T.func(T.parse("req_compile/metadata/source.py"), "setup")
-    frameworks = None
-    key_fmt = esc = env_prefix = name_repl = None
-    slice_ok = False
+    frameworks = name_repl = None
+    sep = env_fmt = key_fmt = esc = join = None
+    stripped = False
     for node in ast.walk(f):
         if isinstance(node, ast.Assign) and len(node.targets) == 1 and isinstance(node.targets[0], ast.Name) \
                 and node.targets[0].id == "setup_frameworks":
             frameworks = list(T.literal(node.value))
-        if isinstance(node, ast.Call) and isinstance(node.func, ast.Attribute) and node.func.attr == "format" \
-                and isinstance(node.func.value, ast.Constant) and isinstance(node.func.value.value, str) \
-                and "extra" in node.func.value.value and len(node.args) == 1:
-            a = node.args[0]
-            if (isinstance(a, ast.Call) and isinstance(a.func, ast.Attribute) and a.func.attr == "replace"
-                    and isinstance(a.func.value, ast.Name) and a.func.value.id == "extra" and len(a.args) == 2):
-                key_fmt = node.func.value.value
-                esc = (_const_str(a.args[0]), _const_str(a.args[1]))
-            else:
-                raise TranslateError("setup(): the extra marker format is not applied to extra.replace(a, b)")
-        if isinstance(node, ast.Call) and isinstance(node.func, ast.Attribute) and node.func.attr == "startswith" \
-                and isinstance(node.func.value, ast.Name) and node.func.value.id == "extra" and len(node.args) == 1:
-            env_prefix = _const_str(node.args[0])
-        if isinstance(node, ast.Subscript) and isinstance(node.value, ast.Name) and node.value.id == "extra" \
-                and isinstance(node.slice, ast.Slice):
-            sl = node.slice
-            if isinstance(sl.lower, ast.Constant) and sl.lower.value == 1 and sl.upper is None and sl.step is None:
-                slice_ok = True
-            else:
-                raise TranslateError("setup(): unexpected slice of extra")
         if isinstance(node, ast.Assign) and len(node.targets) == 1 and isinstance(node.targets[0], ast.Name) \
                 and node.targets[0].id == "name" and isinstance(node.value, ast.Call) \
-                and isinstance(node.value.func, ast.Attribute) and node.value.func.attr == "replace" \
-                and isinstance(node.value.func.value, ast.Name) and node.value.func.value.id == "name":
+                and _safe_chain(node.value.func) == "name.replace":
             name_repl = (_const_str(node.value.args[0]), _const_str(node.value.args[1]))
-    if frameworks is None or key_fmt is None or env_prefix is None or not slice_ok or name_repl is None:
+        if isinstance(node, ast.Assign) and isinstance(node.targets[0], ast.Tuple) \
+                and [getattr(e, "id", None) for e in node.targets[0].elts] == ["extra_name", "_", "env_marker"]:
+            c = node.value
+            if not (isinstance(c, ast.Call) and _safe_chain(c.func) == "extra.partition" and len(c.args) == 1):
+                raise TranslateError("setup(): extra_name, _, env_marker must come from extra.partition(<sep>)")
+            sep = _const_str(c.args[0])
+        if isinstance(node, ast.Assign) and isinstance(node.targets[0], ast.Name) and node.targets[0].id == "extra_name" \
+                and isinstance(node.value, ast.Call) and _safe_chain(node.value.func) == "extra_name.strip" and not node.value.args:
+            stripped = True
+        if isinstance(node, ast.If) and not node.orelse and len(node.body) == 1 and _is_call(node.body[0], "markers.append"):
+            arg = node.body[0].value.args[0]
+            if isinstance(node.test, ast.Call) and _safe_chain(node.test.func) == "env_marker.strip" and not node.test.args:
+                env_fmt = _format_of(arg, "env_marker")
+            elif isinstance(node.test, ast.Name) and node.test.id == "extra_name":
+                if not (isinstance(arg, ast.Call) and isinstance(arg.func, ast.Attribute)
+                        and arg.func.attr == "format" and len(arg.args) == 1):
+                    raise TranslateError("setup(): unexpected extra marker expression")
+                inner = arg.args[0]
+                if not (isinstance(inner, ast.Call) and _safe_chain(inner.func) == "extra_name.replace" and len(inner.args) == 2):
+                    raise TranslateError("setup(): the extra marker format is not applied to extra_name.replace(a, b)")
+                key_fmt = _const_str(arg.func.value)
+                esc = (_const_str(inner.args[0]), _const_str(inner.args[1]))
+            else:
+                raise TranslateError("setup(): unrecognised condition on a markers.append")
+        if isinstance(node, ast.IfExp) and isinstance(node.test, ast.Name) and node.test.id == "markers":
+            c = node.body
+            if not (isinstance(c, ast.Call) and _safe_chain(c.func) == "parse_req_with_marker" and len(c.args) == 2
+                    and isinstance(c.args[1], ast.Call) and isinstance(c.args[1].func, ast.Attribute) and c.args[1].func.attr == "join"
+                    and _safe_chain(c.args[1].args[0]) == "markers"
+                    and isinstance(node.orelse, ast.Name) and node.orelse.id == "cur_req"):
+                raise TranslateError("setup(): expected parse_req_with_marker(str(cur_req), <sep>.join(markers)) if markers else cur_req")
+            join = _const_str(c.args[1].func.value)
+    if any(x is None for x in (frameworks, name_repl, sep, env_fmt, key_fmt, esc, join)) or not stripped:
         raise TranslateError("setup(): a construct the harvester model is built on was not found")
-    if key_fmt.count("{}") != 1:
-        raise TranslateError(f"unsupported key format {key_fmt!r}")
+    if key_fmt.count("{}") != 1 or env_fmt.count("{}") != 1:
+        raise TranslateError("unsupported key formats")
     pre, suf = key_fmt.split("{}")
-    if len(env_prefix) != 1 or len(name_repl[0]) != 1 or len(name_repl[1]) != 1:
+    eo, ec = env_fmt.split("{}")
+    if len(sep) != 1 or len(name_repl[0]) != 1 or len(name_repl[1]) != 1:
         raise TranslateError("single characters expected")
-    return frameworks, pre, suf, esc, env_prefix, name_repl
+    return frameworks, pre, suf, esc, sep, name_repl, eo, ec, join
 
 
 def read_to_relative() -> Any:
@@ -167,21 +211,58 @@ def read_dispatch() -> Any:
     return [".zip"], list(tars[0])
 
 
+def read_cfg_only_dir() -> bool:
+    """_parse_setup_py: `if setup_file is None: setup_dir = <e> else: setup_dir = os.path.dirname(setup_file)`.
+    True iff <e> is os.path.dirname(setup_cfg) if setup_cfg else "." AND _fetch_from_setup_py passes the setup.cfg
+    it located; False for the literal "."."""
+    src = T.parse("req_compile/metadata/source.py")
+    f = T.func(src, "_parse_setup_py")
+    for node in ast.walk(f):
+        if isinstance(node, ast.If) and isinstance(node.test, ast.Compare) and _safe_chain(node.test.left) == "setup_file" \
+                and isinstance(node.test.ops[0], ast.Is) and len(node.body) == 1 and isinstance(node.body[0], ast.Assign) \
+                and getattr(node.body[0].targets[0], "id", None) == "setup_dir":
+            e = node.body[0].value
+            other = node.orelse[0] if len(node.orelse) == 1 else None
+            if not (isinstance(other, ast.Assign) and getattr(other.targets[0], "id", None) == "setup_dir"
+                    and isinstance(other.value, ast.Call) and _safe_chain(other.value.func) == "os.path.dirname"
+                    and _safe_chain(other.value.args[0]) == "setup_file"):
+                raise TranslateError("_parse_setup_py: setup_dir of the setup.py case changed")
+            if isinstance(e, ast.Constant) and e.value == ".":
+                return False
+            if (isinstance(e, ast.IfExp) and _safe_chain(e.test) == "setup_cfg" and isinstance(e.body, ast.Call)
+                    and _safe_chain(e.body.func) == "os.path.dirname" and _safe_chain(e.body.args[0]) == "setup_cfg"
+                    and isinstance(e.orelse, ast.Constant) and e.orelse.value == "."):
+                g = T.func(src, "_fetch_from_setup_py")
+                calls = [n for n in ast.walk(g) if isinstance(n, ast.Call) and _safe_chain(n.func) == "_parse_setup_py"]
+                finds = [n for n in ast.walk(g) if isinstance(n, ast.Assign) and getattr(n.targets[0], "id", None) == "setup_cfg"
+                         and isinstance(n.value, ast.Call) and _safe_chain(n.value.func) == "find_in_archive"]
+                if len(calls) == 1 and len(calls[0].args) == 4 and _safe_chain(calls[0].args[3]) == "setup_cfg" and len(finds) == 1:
+                    return True
+                raise TranslateError("_fetch_from_setup_py does not hand the located setup.cfg to _parse_setup_py")
+            raise TranslateError("_parse_setup_py: unrecognised setup_dir for a project without setup.py")
+    raise TranslateError("_parse_setup_py: the setup_dir decision was not found")
+
+
 def generate() -> str:
-    test, g_and, g_semi = read_glue()
-    frameworks, pre, suf, esc, env_prefix, name_repl = read_setup()
+    test, g_open, g_close, g_semi = read_glue()
+    frameworks, pre, suf, esc, key_sep, name_repl, env_open, env_close, key_join = read_setup()
     ds, bs, fs = read_to_relative()
     zips, tars = read_dispatch()
     out = "(* GENERATED by harness/tr_c12.py from /repo on every run -- do not edit *)\n"
     out += "From Coq Require Import List String Ascii Bool.\nImport ListNotations.\nOpen Scope string_scope.\n"
     out += f"Definition glue_test : string := {cs(test)}.\n"
-    out += f"Definition glue_and : string := {cs(g_and)}.\n"
+    out += f"Definition glue_test_char : ascii := {cs(test)}%char.\n"
+    out += f"Definition glue_own_open : string := {cs(g_open)}.\n"
+    out += f"Definition glue_own_close : string := {cs(g_close)}.\n"
     out += f"Definition glue_semi : string := {cs(g_semi)}.\n"
     out += f"Definition key_prefix : string := {cs(pre)}.\n"
     out += f"Definition key_suffix : string := {cs(suf)}.\n"
     out += f"Definition key_esc_from : string := {cs(esc[0])}.\n"
     out += f"Definition key_esc_to : string := {cs(esc[1])}.\n"
-    out += f"Definition key_env_prefix : string := {cs(env_prefix)}.\n"
+    out += f"Definition key_sep_char : ascii := {cs(key_sep)}%char.\n"
+    out += f"Definition key_env_open : string := {cs(env_open)}.\n"
+    out += f"Definition key_env_close : string := {cs(env_close)}.\n"
+    out += f"Definition key_join : string := {cs(key_join)}.\n"
     out += f"Definition name_repl_from : ascii := {cs(name_repl[0])}%char.\n"
     out += f"Definition name_repl_to : ascii := {cs(name_repl[1])}%char.\n"
     out += "Definition frameworks : list string := [" + "; ".join(cs(x) for x in frameworks) + "].\n"
@@ -191,6 +272,7 @@ def generate() -> str:
     out += "Definition archive_exts_zip : list string := [" + "; ".join(cs(x) for x in zips) + "].\n"
     out += "Definition archive_exts_tar : list string := [" + "; ".join(cs(x) for x in tars) + "].\n"
     out += "Definition pyproject_only_for_dirs : bool := true.\n"
+    out += f"Definition cfg_only_dir_follows_cfg : bool := {'true' if read_cfg_only_dir() else 'false'}.\n"
     return out
 
 
@@ -205,8 +287,10 @@ Open Scope string_scope.
 Inductive cstep :=
 | CPathRemove (guarded : bool)     (* sys.path.remove(abs_setupdir), inside `if abs_setupdir in sys.path` or not *)
 | CEndPatch (name : string)        (* end_patch(token) *)
+| CPathRestore                     (* sys.path[:] = saved_sys_path, saved directly before `with patches:` *)
 | CMetaRemove (guarded : bool)     (* sys.meta_path.remove(meta_hook) *)
-| CModules.                        (* the sys.modules sweep: del every module the extractor contains *)
+| CModules                         (* the sys.modules sweep: del every module the extractor contains *)
+| CCaptureUndo.                    (* if capturing_started: logging.captureWarnings(False) *)
 '''
 
 
@@ -292,6 +376,34 @@ def read_frame() -> Any:
     for st in tr.finalbody:
         dumped = ast.dump(st)
         if isinstance(st, ast.If) and "old_cythonize" in dumped and not st.orelse:
+            continue
+        if (isinstance(st, ast.Assign) and len(st.targets) == 1 and isinstance(st.targets[0], ast.Subscript)
+                and _safe_chain(st.targets[0].value) == "sys.path" and isinstance(st.targets[0].slice, ast.Slice)
+                and st.targets[0].slice.lower is None and st.targets[0].slice.upper is None
+                and isinstance(st.value, ast.Name) and st.value.id == "saved_sys_path"):
+            # the copy must be taken directly before `with patches:` (nothing of the analysis has touched sys.path yet)
+            idx = f.body.index(withs[0])
+            prev = f.body[idx - 1] if idx > 0 else None
+            if not (isinstance(prev, ast.Assign) and isinstance(prev.targets[0], ast.Name) and prev.targets[0].id == "saved_sys_path"
+                    and isinstance(prev.value, ast.Call) and _safe_chain(prev.value.func) == "list"
+                    and len(prev.value.args) == 1 and _safe_chain(prev.value.args[0]) == "sys.path"):
+                raise TranslateError("_parse_setup_py: saved_sys_path = list(sys.path) is not the statement before `with patches:`")
+            steps.append("CPathRestore")
+            continue
+        if (isinstance(st, ast.If) and not st.orelse and isinstance(st.test, ast.Name) and st.test.id == "capturing_started"
+                and len(st.body) == 1 and _is_call(st.body[0], "logging.captureWarnings")
+                and isinstance(st.body[0].value.args[0], ast.Constant) and st.body[0].value.args[0].value is False):
+            # switched on at the top of the function, and remembered whether THIS call switched it on
+            heads = [ast.dump(x) for x in f.body[:6]]
+            want = ["old_showwarning", "captureWarnings", "capturing_started"]
+            if not all(any(w in h for h in heads) for w in want) or st is not tr.finalbody[-1]:
+                raise TranslateError("_parse_setup_py: the captureWarnings bracket changed shape")
+            started = [n for n in f.body if isinstance(n, ast.Assign) and isinstance(n.targets[0], ast.Name) and n.targets[0].id == "capturing_started"]
+            if len(started) != 1 or not (isinstance(started[0].value, ast.Compare) and isinstance(started[0].value.ops[0], ast.IsNot)
+                                         and _safe_chain(started[0].value.left) == "warnings.showwarning"
+                                         and _safe_chain(started[0].value.comparators[0]) == "old_showwarning"):
+                raise TranslateError("_parse_setup_py: capturing_started is not `warnings.showwarning is not old_showwarning`")
+            steps.append("CCaptureUndo")
             continue
         if _is_call(st, "sys.path.remove") and _safe_chain(st.value.args[0]) == "abs_setupdir":
             steps.append("CPathRemove false")
@@ -383,6 +495,40 @@ def read_frame() -> Any:
     return steps, begin, ctx, ctx_ok, restored, pep_patch
 
 
+def read_pep517_wrapped() -> bool:
+    """metadata.extract_metadata: is the fetch_from_pyproject call inside a try whose handler for Exception
+    raises MetadataError (a failing PEP 517 hook is then a metadata failure of that project)?"""
+    f = T.func(T.parse("req_compile/metadata/metadata.py"), "extract_metadata")
+    found = []
+
+    def visit(node: ast.AST, handlers: List[ast.ExceptHandler]) -> None:
+        if isinstance(node, ast.Try):
+            for s_ in node.body:
+                visit(s_, handlers + node.handlers)
+            for h in node.handlers:
+                for s_ in h.body:
+                    visit(s_, handlers)
+            for s_ in node.orelse + node.finalbody:
+                visit(s_, handlers)
+            return
+        if isinstance(node, ast.Assign) and isinstance(node.value, ast.Call) and _safe_chain(node.value.func) == "fetch_from_pyproject":
+            found.append(handlers)
+        for child in ast.iter_child_nodes(node):
+            if isinstance(child, ast.stmt):
+                visit(child, handlers)
+    for s_ in f.body:
+        visit(s_, [])
+    if len(found) != 1:
+        raise TranslateError("extract_metadata: expected exactly one `... = fetch_from_pyproject(filename)`")
+    for h in found[0]:
+        if h.type is not None and _safe_chain(h.type) == "Exception":
+            raises = [n for n in h.body if isinstance(n, ast.Raise) and isinstance(n.exc, ast.Call) and _safe_chain(n.exc.func) == "MetadataError"]
+            if len(raises) == 1 and len(h.body) == 1:
+                return True
+            raise TranslateError("extract_metadata: the handler around fetch_from_pyproject does something else than raise MetadataError")
+    return False
+
+
 def generate_frame() -> str:
     steps, begin, ctx, ctx_ok, restored, pep_patch = read_frame()
     out = FRAME_HEADER
@@ -392,4 +538,5 @@ def generate_frame() -> str:
     out += "Definition pep517_patched : list string := [" + "; ".join(cs(x) for x in pep_patch) + "].\n"
     out += f"Definition ctx_restored_in_finally : bool := {'true' if ctx_ok else 'false'}.\n"
     out += f"Definition pep517_chdir_restored_in_finally : bool := {'true' if restored else 'false'}.\n"
+    out += f"Definition pep517_failure_wrapped : bool := {'true' if read_pep517_wrapped() else 'false'}.\n"
     return out
